@@ -50,6 +50,7 @@ class Outcome:
     self.t_impl = self.t_tlc = 0
     self.theorems_ok = 0
     self.sql_differs = 0
+    self.modes = {}
 
 
 def CleanMsg(msg):
@@ -156,6 +157,7 @@ def RunCases(prop, cases, tag=None, max_samples=4, metamorphic=False):
       {}, {'tlc_states': 0}, [])
   out.t_tlc = clock() - out.t_impl
   out.tlc_states = stats['tlc_states']
+  out.modes = stats.get('modes', {})
   same = {}
   for (cid, p), (ok, exp) in verdicts.items():
     case, res = by_id[cid]
@@ -305,6 +307,7 @@ def StandardRun(prop, tier, cases, required, rule, assumptions, tag=None,
       'disagreements_with_den': len(out.disagreements),
       'inherited_from_base': out.inherited,
       'variants_whose_sql_differs_from_base': out.sql_differs,
+      'verdict_modes': out.modes,
       'exhaustive': False,
   }
   if extra_coverage:
